@@ -476,6 +476,62 @@ impl Res for Vec<u8> {
     }
 }
 
+impl Res for bool {
+    fn make(t: u64) -> Self {
+        sbyte(t, 0) & 1 == 1
+    }
+    fn feed(&self, h: &mut Fnv) -> u32 {
+        h.byte(*self as u8);
+        1
+    }
+}
+impl Res for char {
+    fn make(t: u64) -> Self {
+        let v = u32::from_le_bytes([sbyte(t, 0), sbyte(t, 1), sbyte(t, 2), sbyte(t, 3)]) % 0xD800;
+        char::from_u32(v).unwrap_or('x')
+    }
+    fn feed(&self, h: &mut Fnv) -> u32 {
+        h.bytes(&(*self as u32).to_le_bytes());
+        4
+    }
+}
+impl Res for Option<u8> {
+    fn make(t: u64) -> Self {
+        if sbyte(t, 0) & 1 == 1 {
+            Some(sbyte(t, 1))
+        } else {
+            None
+        }
+    }
+    fn feed(&self, h: &mut Fnv) -> u32 {
+        match self {
+            Some(v) => h.bytes(&[1, *v]),
+            None => h.bytes(&[0, 0]),
+        }
+        2
+    }
+}
+/// fieldless enum: `Option<Verdict>` keeps `None` in a niche that is not the all-zero pattern
+#[derive(Clone, Copy)]
+enum Verdict {
+    A,
+    B,
+    C,
+}
+impl Res for Verdict {
+    fn make(t: u64) -> Self {
+        match sbyte(t, 0) % 3 {
+            0 => Verdict::A,
+            1 => Verdict::B,
+            _ => Verdict::C,
+        }
+    }
+    fn feed(&self, h: &mut Fnv) -> u32 {
+        h.byte(*self as u8);
+        1
+    }
+}
+
 enum H {
     T0(JoinHandle<()>),
     T1(JoinHandle<u8>),
@@ -486,6 +542,10 @@ enum H {
     T6(JoinHandle<A64>),
     T7(JoinHandle<A4096>),
     T8(JoinHandle<Vec<u8>>),
+    T9(JoinHandle<bool>),
+    T10(JoinHandle<char>),
+    T11(JoinHandle<Option<u8>>),
+    T12(JoinHandle<Verdict>),
 }
 
 // ------------------------------------------------------------------------------------------------
@@ -627,6 +687,10 @@ fn spawn_spec(ty: u8, c: Clo) -> Result<H, i32> {
         5 => H::T5(spawn_t(c)?),
         6 => H::T6(spawn_t(c)?),
         7 => H::T7(spawn_t(c)?),
+        9 => H::T9(spawn_t(c)?),
+        10 => H::T10(spawn_t(c)?),
+        11 => H::T11(spawn_t(c)?),
+        12 => H::T12(spawn_t(c)?),
         _ => H::T8(spawn_t(c)?),
     })
 }
@@ -654,6 +718,10 @@ fn join_h(h: H) -> (u8, u64, u32) {
         H::T6(h) => join_t(h),
         H::T7(h) => join_t(h),
         H::T8(h) => join_t(h),
+        H::T9(h) => join_t(h),
+        H::T10(h) => join_t(h),
+        H::T11(h) => join_t(h),
+        H::T12(h) => join_t(h),
     }
 }
 
